@@ -118,6 +118,54 @@ def tag_exceeds_30_bits(text):
     return any(int(n) >= 2**30 for n in re.findall(r"\[\s*(?:UNIVERSAL|APPLICATION|PRIVATE|CONTEXT)?\s*(\d+)\s*\]", strip_comments(text)))
 
 
+MIXEDCASE_TYPES = "BMPString|GeneralString|GraphicString|IA5String|ISO646String|NumericString|PrintableString|T61String|TeletexString|UniversalString|UTF8String|VideotexString|VisibleString|GeneralizedTime|UTCTime|ObjectDescriptor"
+SKELETON_STEMS = None
+
+
+def null_actual(text):
+    """NULL written as an ACTUAL parameter of a parameterized reference:  P {NULL}  /  P {INTEGER, NULL}"""
+    return bool(re.search(r"\b[A-Z][\w-]*\s*\{\s*(?:[^{}:=]*,\s*)?NULL\s*(?:,[^{}]*)?\}", strip_comments(text)))
+
+
+def governor_mixedcase(text):
+    """a dummy parameter governed by a builtin type whose keyword is not all capitals:  P {IA5String:d} ::="""
+    return bool(re.search(r"\{[^{}]*\b(?:%s)\s*:\s*[A-Za-z][\w-]*[^{}]*\}\s*::=" % MIXEDCASE_TYPES, strip_comments(text)))
+
+
+def governor_null(text):
+    return bool(re.search(r"\{[^{}]*\bNULL\s*:\s*[a-z][\w-]*[^{}]*\}\s*::=", strip_comments(text)))
+
+
+def enum_value_reference(text):
+    """an ENUMERATED item whose number is a value reference:  ENUMERATED { k(v3), l }"""
+    return bool(re.search(r"\bENUMERATED\s*\{[^{}]*\b[a-z][\w-]*\s*\(\s*[a-z][\w-]*\s*\)", strip_comments(text)))
+
+
+def skeleton_named_type(text, skel):
+    global SKELETON_STEMS
+    if SKELETON_STEMS is None:
+        SKELETON_STEMS = {f[:-2] for f in os.listdir(skel) if f.endswith(".h")}
+    return any(n in SKELETON_STEMS for n in re.findall(r"(?m)^\s*([A-Z][\w-]*)\s*(?:\{[^}]*\}\s*)?::=", strip_comments(text)))
+
+
+def param_types_in_two_modules(text):
+    """names of parameterized type assignments that occur in two modules"""
+    names = re.findall(r"(?m)^\s*([A-Z][\w-]*)\s*\{[^{}]*\}\s*::=", strip_comments(text))
+    return {n for n in names if names.count(n) > 1}
+
+
+def param_type_in_two_modules(text):
+    return bool(param_types_in_two_modules(text))
+
+
+def valueset_used_as_type(text):
+    t = strip_comments(text)
+    for n in re.findall(r"(?m)^\s*([A-Z][\w-]*)\s+[A-Z][\w -]*?::=\s*\{", t):
+        if re.search(r"\b[a-z][\w-]*\s+%s\b(?!\s*::=)" % re.escape(n), t):
+            return True
+    return False
+
+
 def match_finding(stage, job):
     """-> finding id or None.  Each rule = symptom signature (the site) AND a predicate on (module text, options)."""
     text, opts = job["mod"]["text"], job["opts"]
@@ -128,6 +176,14 @@ def match_finding(stage, job):
             return "C10-of-of-size-assert"
         if job["rc"] == -11 and left_recursive_choice(text):
             return "C11-leftrec-crash"
+        if "asn1f_find_terminal_thing: Assertion `ref'" in err and null_actual(text):
+            return "C10-param-null-actual-assert"
+        if "asn1p_ref_add_component: Assertion `lex_type ==" in err and governor_mixedcase(text):
+            return "C10-param-governor-mixedcase-assert"
+        if "asn1constraint_default_alphabet: Assertion" in err and "ISO646String" in strip_comments(text):
+            return "C10-iso646string-assert"
+        if job["rc"] == -11 and enum_value_reference(text):
+            return "C10-enum-value-reference-crash"
     if stage in ("build", "cxx"):
         if re.search(r"asn_DEF_Member_\d+. undeclared", blog) and has_of_unsigned_integer(text):
             return "C10-of-unsigned-element"
@@ -138,6 +194,37 @@ def match_finding(stage, job):
             return "C10-param-circular-include"
         if re.search(r"empty enum is invalid|asn_MAP_\w+_tag2el_\d+. undeclared", blog) and has_empty_set(text):
             return "C10-empty-set"
+        if re.search(r"\b(EXTERNAL|EMBEDDED_PDV|CHARACTER_STRING)\.h: No such file", blog) and re.search(r"\b(EXTERNAL|EMBEDDED\s+PDV|CHARACTER\s+STRING)\b", strip_comments(text)):
+            return "C10-unsupported-useful-types-no-skeleton"
+        if re.search(r"unknown type name .\w+_\d+P\d+_t|asn_DEF_\w+_\d+P\d+. undeclared|\w+_\d+P\d+. has not been declared|does not name a type", blog):
+            if governor_null(text):
+                return "C10-param-null-value-respecialized"
+            if param_type_in_two_modules(text):
+                return "C10-param-type-in-two-modules"
+        if re.search(r"#error Cannot compile", blog) and re.search(r"\bINSTANCE\s+OF\b", strip_comments(text)):
+            return "C10-instance-of-member-error-directive"
+        if re.search(r"\b[\w-]+\.h: No such file", blog) and valueset_used_as_type(text):
+            return "C10-valueset-type-as-member"
+        if skeleton_named_type(text, job["skel"]) and re.search(r"unknown type name|undeclared|conflicting types|redefinition|does not name a type|has not been declared", blog):
+            return "C10-type-named-like-skeleton"
+    if stage == "files-model":
+        # model and C disagree on the per-type file names ONLY at parameterized types defined in two modules
+        # (the templates are not run through asn1f_check_duplicate: no module prefix, both saved to one file)
+        want, got, clash = job.get("model_stems", []), job.get("stems", []), param_types_in_two_modules(text)
+        if clash and len(want) == len(got) and all(w == g or (g in clash and w.endswith("_" + g)) for w, g in zip(want, got)):
+            return "C10-param-type-in-two-modules"
+    if stage == "fileset":
+        kinds = {p_.split(":")[0] for p_ in job.get("fileset", [])}
+        clash = param_types_in_two_modules(text)
+        if kinds <= {"written-twice"} and clash and all(p_.split(":")[1][:-2] in clash for p_ in job["fileset"]):
+            return "C10-param-type-in-two-modules"
+        incs = " ".join(job.get("fileset", []))
+        if kinds <= {"missing-include"} and re.search(r"includes (EXTERNAL|EMBEDDED_PDV|CHARACTER_STRING)\.h", incs) and re.search(r"\b(EXTERNAL|EMBEDDED\s+PDV|CHARACTER\s+STRING)\b", strip_comments(text)):
+            return "C10-unsupported-useful-types-no-skeleton"
+        if kinds <= {"missing-include"} and valueset_used_as_type(text):
+            return "C10-valueset-type-as-member"
+        if kinds <= {"shadows-skeleton"} and skeleton_named_type(text, job["skel"]):
+            return "C10-type-named-like-skeleton"
     if stage == "overflow":
         if bound_exceeds_long(text) or tag_exceeds_30_bits(text):
             return "C10-constant-exceeds-c-type"
@@ -145,6 +232,106 @@ def match_finding(stage, job):
         if set(job["failing_clauses"]) <= {4, 6} and bound_exceeds_long(text):
             return "C10-constant-exceeds-c-type"
     return None
+
+
+# ---------------------------------------------------------------- round 2: file set and specialization ties
+
+def shallow_pairs(sites, types):
+    """pairs of sites of one template that share a C type although their actual parameter lists differ; each pair is
+    (site i, site j, explained) with explained = the lists have the same key text (differ in constraints / nested
+    parameter lists only) - the predicate of finding C10-param-actuals-compared-shallowly"""
+    out = []
+    for i in range(len(sites)):
+        for j in range(i + 1, len(sites)):
+            a, b = sites[i], sites[j]
+            ta, tb = types.get("%s.%s" % (a["carrier"], a["member"])), types.get("%s.%s" % (b["carrier"], b["member"]))
+            if a["tmpl"] == b["tmpl"] and ta and tb and ta == tb and a["text"] != b["text"]:
+                out.append((a, b, a["key"] == b["key"] and a["mod"] == b["mod"]))
+    return out
+
+
+def region_ties(run, res, known_ids):
+    model = model_build()
+    lines, owners = [], []
+    for j in res:
+        m = j["mod"]
+        if j.get("rc") != 0:
+            continue
+        if m.get("nmods"):
+            toks = [str(len(m["nmods"]))]
+            for name, ids in m["nmods"]:
+                toks += [name, str(len(ids))] + [t for i, ty in ids for t in (i, "1" if ty else "0")]
+            lines.append("c10_files " + " ".join(toks))
+            owners.append((j, "files", None))
+        if m.get("sites"):
+            for tmpl in sorted({s["tmpl"] for s in m["sites"]}):
+                ss = [s for s in m["sites"] if s["tmpl"] == tmpl]
+                for cmd in ("c10_spec", "c10_spec_key"):
+                    lines.append("%s %d %s" % (cmd, len(ss), " ".join(s["model"] for s in ss)))
+                    owners.append((j, cmd, ss))
+    out = []
+    if lines:
+        rc, out, err = run_lines(model, lines)
+        if rc != 0 or len(out) != len(lines):
+            raise RuntimeError("model driver failed: rc=%s lines=%d/%d %s" % (rc, len(out), len(lines), err))
+    keyline = {}
+    for (j, what, ss), line, ans in zip(owners, lines, out):
+        m, opts = j["mod"], j["opts"]
+        case = "%s %s" % (m["name"], " ".join(opts))
+        replay = {"module": m["text"], "module_name": m["name"], "files": [f for f, _ in m.get("files", [])], "options": list(opts),
+                  "replay_cmd": "asn1c -S <skeletons> -pdu=all %s %s" % (" ".join(opts), " ".join(f for f, _ in m.get("files", [(m["name"] + ".asn1", "")]))),
+                  "model_cmd": line[:1500]}
+        if what == "files":
+            run.count("tie:file-set")
+            got = "OK " + " ".join(j.get("stems", []))
+            want = re.sub(r"^OK clean=\w+ ?", "OK ", ans).strip()
+            if "clean=false" in ans:
+                run.violation("harness:unclean-names", dict(replay, what="generated module list carries a name with a low line"), no_input=True)
+            j["model_stems"] = want.split()[1:]
+            fid = match_finding("files-model", j) if want != got.strip() else None
+            if fid and fid in known_ids:
+                run.known_finding(fid, case)
+                run.count("known:" + fid)
+            elif want != got.strip():
+                run.violation("correspondence:FileSet.file_stems", dict(replay, what="per-type files written by asn1c differ from the model's (names or order)",
+                                                                         model=ans, c=got, fileset=j.get("fileset")), no_input=not j.get("fileset"))
+        elif what == "c10_spec_key":
+            keyline[id(j), ss[0]["tmpl"]] = ans
+        else:
+            run.count("tie:specialization-sites", len(ss))
+            types = j.get("site_types", {})
+            got = [types.get("%s.%s" % (s["carrier"], s["member"])) for s in ss]
+            cline = "OK " + " ".join(str(t[2]) if t else "?" for t in got)
+            pairs = shallow_pairs(ss, types)
+            if ans != cline:
+                run.violation("correspondence:ParamSpec.spec_indices", dict(replay, what="specialization indices in the generated headers differ from the model's",
+                                                                             model=ans, c=cline, sites=[(s["member"], s["text"]) for s in ss]), no_input=not pairs)
+            # Spec vs Code, on the C output alone: different actual parameter lists must not share a C type
+            for a, b, explained in pairs:
+                run.count("oracle:distinct-actuals-share-a-type")
+                if explained and "C10-param-actuals-compared-shallowly" in known_ids:
+                    run.known_finding("C10-param-actuals-compared-shallowly", case)
+                    run.count("known:C10-param-actuals-compared-shallowly")
+                else:
+                    run.violation("param:distinct-actuals-share-a-type", dict(replay, what="two references with different actual parameters are given ONE C type",
+                                                                             site_a=(a["member"], a["text"]), site_b=(b["member"], b["text"]), c_type=types.get("%s.%s" % (a["carrier"], a["member"]))))
+    # the theorem spec_ignores_constraints, replayed: the key-erased references get the same indices
+    for (j, what, ss), line, ans in zip(owners, lines, out):
+        if what == "c10_spec" and keyline.get((id(j), ss[0]["tmpl"])) != ans:
+            run.violation("model:spec_ignores_constraints", {"what": "model disagrees with its own theorem", "line": line[:800]}, no_input=True)
+    # the file-set oracle for EVERY accepted module (not only the multi-module ones)
+    for j in res:
+        if j.get("rc") == 0 and j.get("fileset"):
+            m, opts = j["mod"], j["opts"]
+            run.count("oracle:file-set-broken")
+            fid = match_finding("fileset", j)
+            if fid and fid in known_ids:
+                run.known_finding(fid, "%s %s" % (m["name"], " ".join(opts)))
+                run.count("known:" + fid)
+                continue
+            kinds = sorted({p.split(":")[0] for p in j["fileset"]})
+            run.violation("fileset:" + ",".join(kinds), {"module": m["text"], "module_name": m["name"], "files": [f for f, _ in m.get("files", [])], "options": list(opts),
+                                                        "what": "asn1c exited 0 but the set of files it wrote is not self-contained", "problems": j["fileset"]})
 
 
 # ---------------------------------------------------------------- main
@@ -255,6 +442,12 @@ def main(tier):
         table_jobs.append((j, names_, replay))
         if len(run.cov["samples"]) < 3 and m["origin"] in ("special", "modgen") and len(terms) >= 3:
             run.sample({"module": m["name"], "options": list(opts), "descriptors": len(terms), "first": terms[0][:300]})
+
+    # ---- round 2: the file set and the specialization indices, model vs C and the oracle on the C output alone
+    try:
+        region_ties(run, res, known_ids)
+    except RuntimeError as e:
+        run.violation("model:modeldrv", {"what": str(e)[-1500:]}, no_input=True)
 
     # the generated obligations
     tres = check_tables(scr, tables) if tables else {}
